@@ -1,3 +1,803 @@
 package main
 
-func runC10() { panic("not yet") }
+// c10.go: property C10 — precompiles act only for their direct caller and only in a writable call context.
+// Every method of both precompile contracts x {called by an account; through a contract forwarding the user's
+// calldata with CALL / STATICCALL / DELEGATECALL / CALLCODE; from a contract with the call baked in; by a CALL made
+// inside a STATICCALL} x governance switch settings, with arguments aimed at other accounts' assets, on the
+// REAL EVM. Per run:
+//   monitor (no model): portfolios (balance, delegations, rewards, unbonding, allowances granted, pool entries,
+//     bridge calls) of every account that is not the direct caller never get worse, except a share owner who
+//     granted the caller an allowance: at most the allowance moves and it drops by exactly that; a write method
+//     fails unless reached by CALL in a non-static context; a disabled address / method fails; a failed call
+//     leaves the whole store untouched
+//   correspondence: abstract pre-state, call and observed post-state go to Cases_C10.v and are compared with
+//     model.M_Precompile.entry in coqc.
+
+import (
+	"encoding/binary"
+	"fmt"
+	"math/big"
+	"os"
+	"path/filepath"
+	"sort"
+	"strings"
+
+	sdkmath "cosmossdk.io/math"
+	sdk "github.com/cosmos/cosmos-sdk/types"
+	distrtypes "github.com/cosmos/cosmos-sdk/x/distribution/types"
+	stakingkeeper "github.com/cosmos/cosmos-sdk/x/staking/keeper"
+	stakingtypes "github.com/cosmos/cosmos-sdk/x/staking/types"
+	"github.com/ethereum/go-ethereum/common"
+	"github.com/ethereum/go-ethereum/core/vm"
+
+	fxtypes "github.com/functionx/fx-core/v8/types"
+	crosschaintypes "github.com/functionx/fx-core/v8/x/crosschain/types"
+	fxgovkeeper "github.com/functionx/fx-core/v8/x/gov/keeper"
+	fxgovtypes "github.com/functionx/fx-core/v8/x/gov/types"
+	fxstakingtypes "github.com/functionx/fx-core/v8/x/staking/types"
+
+	"fxverif/lib"
+)
+
+// account ids of the abstract state
+const (
+	aU0 = iota // the user who sends the transaction
+	aU1        // the victim: delegations, allowances granted, pool entry, bridge call, unbonding
+	aU2        // a bystander
+	aKC        // forwarder, CALL
+	aKS        // forwarder, STATICCALL
+	aKD        // forwarder, DELEGATECALL
+	aKCC       // forwarder, CALLCODE
+	aSO        // outer contract that STATICCALLs aKC
+	aKB        // contract with the call baked in (code installed per case)
+	nAccts
+)
+
+var shapeNames = []string{"account", "forward-CALL", "forward-STATICCALL", "forward-DELEGATECALL", "forward-CALLCODE", "CALL-inside-STATICCALL", "baked-CALL"}
+
+type shape int
+
+const (
+	shEOA shape = iota
+	shFwdCall
+	shFwdStatic
+	shFwdDelegate
+	shFwdCallCode
+	shStaticOuter
+	shBaked
+	nShapes
+)
+
+// caller the precompile sees, opcode, static context
+func (s shape) facts() (caller int, kind string, static bool) {
+	switch s {
+	case shEOA:
+		return aU0, "CALL", false
+	case shFwdCall:
+		return aKC, "CALL", false
+	case shFwdStatic:
+		return aKS, "STATICCALL", false
+	case shFwdDelegate:
+		return aKD, "DELEGATECALL", false
+	case shFwdCallCode:
+		return aKCC, "CALLCODE", false
+	case shStaticOuter:
+		return aKC, "CALL", true
+	default:
+		return aKB, "CALL", false
+	}
+}
+
+type World10 struct {
+	c     *lib.Chain
+	keys  [3]lib.Key
+	addrs [nAccts]common.Address
+	vals  [2]sdk.ValAddress
+	base  sdk.Context
+}
+
+func e18(n int64) *big.Int { return new(big.Int).Mul(big.NewInt(n), big.NewInt(1e18)) }
+
+func forwarder(kind lib.CallKind, target common.Address) []byte {
+	a := &lib.Asm{}
+	a.Op(vm.CALLDATASIZE).PushU(0).PushU(0).Op(vm.CALLDATACOPY)
+	a.PushU(0).PushU(0).Op(vm.CALLDATASIZE).PushU(0)
+	if kind == lib.CALL || kind == lib.CALLCODE {
+		a.Op(vm.CALLVALUE)
+	}
+	a.PushAddr(target).Op(vm.GAS)
+	a.Op(map[lib.CallKind]vm.OpCode{lib.CALL: vm.CALL, lib.STATICCALL: vm.STATICCALL, lib.DELEGATECALL: vm.DELEGATECALL, lib.CALLCODE: vm.CALLCODE}[kind])
+	a.RequireSuccess().Stop()
+	return a.B
+}
+
+// the forwarders pick the precompile from the first calldata byte?  No: two sets would double the accounts.
+// Instead the forwarder target is installed per case (code is not part of the compared state).
+
+func NewWorld10(seed int64) *World10 {
+	c := lib.NewChain(seed, 2, nil)
+	lib.Must(c.NextBlock())
+	w := &World10{c: c}
+	w.vals = [2]sdk.ValAddress{c.ValKeys[0].Val(), c.ValKeys[1].Val()}
+	for i := 0; i < 3; i++ {
+		w.keys[i] = lib.EthKey(seed, "c10user", i)
+		w.addrs[i] = w.keys[i].Hex()
+	}
+	for i := 3; i < nAccts; i++ {
+		w.addrs[i] = common.BytesToAddress([]byte{0xc1, 0x00, 0x00, byte(i)})
+	}
+	c.SetupFX([]string{"eth"})
+	c.App.EthKeeper.SetLastObservedBlockHeight(c.Ctx, 1000, uint64(c.Ctx.BlockHeight()))
+	for i := 0; i < nAccts; i++ {
+		c.Mint(w.addrs[i].Bytes(), lib.FX(1000))
+		c.EnsureAccount(c.Ctx, w.addrs[i].Bytes())
+	}
+	ms := stakingkeeper.NewMsgServerImpl(c.App.StakingKeeper.Keeper)
+	del := func(a int, v int, fx int64) {
+		_, err := ms.Delegate(c.Ctx, &stakingtypes.MsgDelegate{DelegatorAddress: sdk.AccAddress(w.addrs[a].Bytes()).String(),
+			ValidatorAddress: w.vals[v].String(), Amount: lib.FX(fx)})
+		lib.Must(err)
+	}
+	del(aU1, 0, 100)
+	del(aU1, 1, 50)
+	del(aU0, 0, 20)
+	del(aKC, 0, 30)
+	del(aKB, 0, 10)
+	del(aKD, 0, 10)
+	del(aKCC, 0, 10)
+	del(aKS, 0, 10)
+	lib.Must(c.NextBlock())
+	// the victim's unbonding entry
+	_, err := ms.Undelegate(c.Ctx, &stakingtypes.MsgUndelegate{DelegatorAddress: sdk.AccAddress(w.addrs[aU1].Bytes()).String(),
+		ValidatorAddress: w.vals[1].String(), Amount: lib.FX(5)})
+	lib.Must(err)
+	// allowances granted by the victim and by the bystander
+	sk := c.App.StakingKeeper
+	for _, sp := range []int{aU0, aKC, aKB, aKD, aKCC, aKS} {
+		sk.SetAllowance(c.Ctx, w.vals[0], w.addrs[aU1].Bytes(), w.addrs[sp].Bytes(), e18(40))
+	}
+	sk.SetAllowance(c.Ctx, w.vals[0], w.addrs[aU2].Bytes(), w.addrs[aU0].Bytes(), e18(7)) // owner without delegation
+	sk.SetAllowance(c.Ctx, w.vals[0], w.addrs[aU0].Bytes(), w.addrs[aU1].Bytes(), e18(3))
+	// pool entries (through the real precompile) and a bridge call of the victim
+	xabi := crosschaintypes.GetABI()
+	pc := lib.CrosschainPrecompile
+	for _, a := range []int{aU1, aU0} {
+		data, err := xabi.Pack("crossChain", common.Address{}, lib.ExternalAccount(seed, "eth", a), big.NewInt(9000), big.NewInt(1000), fxtypes.MustStrToByte32("eth"), "")
+		lib.Must(err)
+		if r := c.EvmCall(c.Ctx, w.addrs[a], &pc, big.NewInt(10000), 3_000_000, data); r.Err != nil || r.Failed {
+			panic(fmt.Sprintf("setup crossChain: %v %s", r.Err, r.VmError))
+		}
+	}
+	for _, a := range []int{aKC, aKB} { // entries owned by contracts: created with the contract as sender
+		data, err := xabi.Pack("crossChain", common.Address{}, lib.ExternalAccount(seed, "eth", a), big.NewInt(9000), big.NewInt(1000), fxtypes.MustStrToByte32("eth"), "")
+		lib.Must(err)
+		c.InstallCode(c.Ctx, w.addrs[a], forwarder(lib.CALL, pc))
+		if r := c.EvmCall(c.Ctx, w.addrs[aU2], &w.addrs[a], big.NewInt(10000), 3_000_000, data); r.Err != nil || r.Failed {
+			panic(fmt.Sprintf("setup crossChain via contract: %v %s", r.Err, r.VmError))
+		}
+	}
+	data, err := xabi.Pack("bridgeCall", "eth", w.addrs[aU1], []common.Address{}, []*big.Int{}, common.HexToAddress("0x1234"), []byte{1}, big.NewInt(0), []byte{})
+	lib.Must(err)
+	if r := c.EvmCall(c.Ctx, w.addrs[aU1], &pc, big.NewInt(4000), 3_000_000, data); r.Err != nil || r.Failed {
+		panic(fmt.Sprintf("setup bridgeCall: %v %s", r.Err, r.VmError))
+	}
+	// touch the staking precompile once so that its (empty) account exists before the compared runs, as on a live chain
+	sp := lib.StakingPrecompile
+	td, err := fxstakingtypes.GetABI().Pack("allowanceShares", w.vals[0].String(), w.addrs[aU1], w.addrs[aU0])
+	lib.Must(err)
+	if r := c.EvmCall(c.Ctx, w.addrs[aU2], &sp, nil, 3_000_000, td); r.Err != nil || r.Failed {
+		panic(fmt.Sprintf("setup touch: %v %s", r.Err, r.VmError))
+	}
+	for i := 0; i < 3; i++ {
+		lib.Must(c.NextBlock()) // rewards accrue
+	}
+	w.base, _ = c.Ctx.CacheContext()
+	return w
+}
+
+// ---- abstract state ----
+
+type AState struct {
+	Bal    [nAccts]*big.Int
+	Dlg    [nAccts][2]*big.Int
+	Rwd    [nAccts][2]*big.Int
+	Unb    [nAccts][2]*big.Int
+	Rrd    [nAccts][2]bool
+	Alw    map[[3]int]*big.Int // validator, owner, spender
+	Pool   map[uint64][3]string // id -> sender id, amount, fee
+	LastTx uint64
+	BCalls map[uint64][3]string // nonce -> sender id, refund id, amount
+	LastBC uint64
+	Switch []string
+}
+
+func (w *World10) idOf(addr []byte) int {
+	for i := 0; i < nAccts; i++ {
+		if string(w.addrs[i].Bytes()) == string(addr) {
+			return i
+		}
+	}
+	return -1
+}
+
+func lastID(c *lib.Chain, ctx sdk.Context, key []byte) uint64 {
+	kvs := c.DumpPrefix(ctx, "eth", key)
+	for _, kv := range kvs {
+		if string(kv.K) == string(key) {
+			return binary.BigEndian.Uint64(kv.V) - 1
+		}
+	}
+	return 0
+}
+
+func (w *World10) observe(ctx sdk.Context) *AState {
+	c := w.c
+	s := &AState{Alw: map[[3]int]*big.Int{}, Pool: map[uint64][3]string{}, BCalls: map[uint64][3]string{}}
+	qctx, _ := ctx.CacheContext() // the reward query moves the validator period on its branch
+	for a := 0; a < nAccts; a++ {
+		acc := sdk.AccAddress(w.addrs[a].Bytes())
+		s.Bal[a] = c.Bal(ctx, acc, fxtypes.DefaultDenom)
+		for v := 0; v < 2; v++ {
+			s.Dlg[a][v], s.Rwd[a][v], s.Unb[a][v] = big.NewInt(0), big.NewInt(0), big.NewInt(0)
+			if d, err := c.App.StakingKeeper.GetDelegation(ctx, acc, w.vals[v]); err == nil {
+				s.Dlg[a][v] = d.Shares.TruncateInt().BigInt()
+				val, err := c.App.StakingKeeper.GetValidator(qctx, w.vals[v])
+				lib.Must(err)
+				end, err := c.App.DistrKeeper.IncrementValidatorPeriod(qctx, val)
+				lib.Must(err)
+				rw, err := c.App.DistrKeeper.CalculateDelegationRewards(qctx, val, d, end)
+				lib.Must(err)
+				s.Rwd[a][v] = rw.AmountOf(fxtypes.DefaultDenom).TruncateInt().BigInt()
+			}
+			if u, err := c.App.StakingKeeper.GetUnbondingDelegation(ctx, acc, w.vals[v]); err == nil {
+				t := sdkmath.ZeroInt()
+				for _, e := range u.Entries {
+					t = t.Add(e.Balance)
+				}
+				s.Unb[a][v] = t.BigInt()
+			}
+			has, err := c.App.StakingKeeper.HasReceivingRedelegation(ctx, acc, w.vals[v])
+			lib.Must(err)
+			s.Rrd[a][v] = has
+		}
+	}
+	c.App.StakingKeeper.IterateAllAllowance(ctx, func(val sdk.ValAddress, owner, spender sdk.AccAddress, al *big.Int) bool {
+		vi := -1
+		for v := 0; v < 2; v++ {
+			if val.Equals(w.vals[v]) {
+				vi = v
+			}
+		}
+		o, sp := w.idOf(owner), w.idOf(spender)
+		if vi < 0 || o < 0 || sp < 0 {
+			// an allowance outside the tracked universe: keyed by a synthetic id so that its appearance is noticed
+			s.Alw[[3]int{vi, 100 + int(owner[len(owner)-1]), 100 + int(spender[len(spender)-1])}] = al
+			return false
+		}
+		if al.Sign() != 0 {
+			s.Alw[[3]int{vi, o, sp}] = al
+		}
+		return false
+	})
+	for _, tx := range c.App.EthKeeper.GetUnbatchedTransactions(ctx) {
+		s.Pool[tx.Id] = [3]string{fmt.Sprint(w.idOf(sdk.MustAccAddressFromBech32(tx.Sender))), tx.Token.Amount.String(), tx.Fee.Amount.String()}
+	}
+	c.App.EthKeeper.IterateOutgoingBridgeCalls(ctx, func(oc *crosschaintypes.OutgoingBridgeCall) bool {
+		amt := sdkmath.ZeroInt()
+		for _, t := range oc.Tokens {
+			amt = amt.Add(t.Amount)
+		}
+		s.BCalls[oc.Nonce] = [3]string{fmt.Sprint(w.idOf(common.HexToAddress(oc.Sender).Bytes())), fmt.Sprint(w.idOf(common.HexToAddress(oc.Refund).Bytes())), amt.String()}
+		return false
+	})
+	s.LastTx = lastID(c, ctx, crosschaintypes.KeyLastTxPoolID)
+	s.LastBC = lastID(c, ctx, crosschaintypes.KeyLastBridgeCallID)
+	s.Switch = c.App.GovKeeper.GetSwitchParams(ctx).DisablePrecompiles
+	return s
+}
+
+func zb(b *big.Int) string { return lib.ZBig(b) }
+
+func (s *AState) coq() string {
+	var bal, dlg, rwd, unb, rrd, alw, pool, bc, sw []string
+	for a := 0; a < nAccts; a++ {
+		bal = append(bal, lib.Pair(lib.Z(int64(a)), zb(s.Bal[a])))
+		for v := 0; v < 2; v++ {
+			k := lib.Pair(lib.Z(int64(a)), lib.Z(int64(v)))
+			if s.Dlg[a][v].Sign() != 0 {
+				dlg = append(dlg, lib.Pair(k, zb(s.Dlg[a][v])))
+			}
+			if s.Rwd[a][v].Sign() != 0 {
+				rwd = append(rwd, lib.Pair(k, zb(s.Rwd[a][v])))
+			}
+			if s.Unb[a][v].Sign() != 0 {
+				unb = append(unb, lib.Pair(k, zb(s.Unb[a][v])))
+			}
+			if s.Rrd[a][v] {
+				rrd = append(rrd, k)
+			}
+		}
+	}
+	var ak [][3]int
+	for k := range s.Alw {
+		ak = append(ak, k)
+	}
+	sort.Slice(ak, func(i, j int) bool {
+		for x := 0; x < 3; x++ {
+			if ak[i][x] != ak[j][x] {
+				return ak[i][x] < ak[j][x]
+			}
+		}
+		return false
+	})
+	for _, k := range ak {
+		alw = append(alw, lib.Pair(fmt.Sprintf("(%d, %d, %d)", k[0], k[1], k[2]), zb(s.Alw[k])))
+	}
+	var ids []uint64
+	for id := range s.Pool {
+		ids = append(ids, id)
+	}
+	sort.Slice(ids, func(i, j int) bool { return ids[i] < ids[j] })
+	for _, id := range ids {
+		e := s.Pool[id]
+		pool = append(pool, lib.Pair(lib.ZU(id), fmt.Sprintf("(%s, %s, %s)", zs(e[0]), e[1], e[2])))
+	}
+	ids = nil
+	for id := range s.BCalls {
+		ids = append(ids, id)
+	}
+	sort.Slice(ids, func(i, j int) bool { return ids[i] < ids[j] })
+	for _, id := range ids {
+		e := s.BCalls[id]
+		bc = append(bc, lib.Pair(lib.ZU(id), fmt.Sprintf("(%s, %s, %s)", zs(e[0]), zs(e[1]), e[2])))
+	}
+	for _, e := range s.Switch {
+		sw = append(sw, "\""+e+"\"%string")
+	}
+	return fmt.Sprintf("(mk_astate %s %s %s %s %s %s %s %s %s %s %s)", lib.List(bal), lib.List(dlg), lib.List(rwd), lib.List(unb),
+		lib.List(rrd), lib.List(alw), lib.List(pool), lib.ZU(s.LastTx), lib.List(bc), lib.ZU(s.LastBC), lib.List(sw))
+}
+
+func zs(s string) string {
+	if strings.HasPrefix(s, "-") {
+		return "(" + s + ")"
+	}
+	return s
+}
+
+// ---- calls ----
+
+type Call10 struct {
+	Method string   `json:"method"`
+	Coq    string   `json:"coq"` // constructor application of M_Precompile.call
+	Target common.Address
+	Data   []byte   `json:"-"`
+	Value  *big.Int `json:"value"`
+	Write  bool     `json:"write"`
+	From   int      `json:"from"`   // transferFromShares: the owner named in the arguments (-1 otherwise)
+	Shares *big.Int `json:"shares"` // transferFromShares: amount
+	Val    int      `json:"val"`
+}
+
+func (w *World10) calls(caller int) []Call10 {
+	sabi, xabi := fxstakingtypes.GetABI(), crosschaintypes.GetABI()
+	S, X := lib.StakingPrecompile, lib.CrosschainPrecompile
+	v0, v1 := w.vals[0].String(), w.vals[1].String()
+	var out []Call10
+	add := func(target common.Address, method, coq string, write bool, value *big.Int, from int, shares *big.Int, val int, abiArgs ...interface{}) {
+		ab := sabi
+		if target == X {
+			ab = xabi
+		}
+		data, err := ab.Pack(method, abiArgs...)
+		lib.Must(err)
+		if value == nil {
+			value = big.NewInt(0)
+		}
+		out = append(out, Call10{Method: method, Coq: coq, Target: target, Data: data, Value: value, Write: write, From: from, Shares: shares, Val: val})
+	}
+	A := func(i int) common.Address { return w.addrs[i] }
+	// read-only methods
+	add(S, "allowanceShares", fmt.Sprintf("(CAllowanceShares 0 %d %d)", aU1, aU0), false, nil, -1, nil, 0, v0, A(aU1), A(aU0))
+	add(S, "delegation", fmt.Sprintf("(CDelegation 0 %d)", aU1), false, nil, -1, nil, 0, v0, A(aU1))
+	add(S, "delegationRewards", fmt.Sprintf("(CDelegationRewards 0 %d)", aU1), false, nil, -1, nil, 0, v0, A(aU1))
+	add(S, "slashingInfo", "(CSlashingInfo 0)", false, nil, -1, nil, 0, v0)
+	add(S, "validatorList", "CValidatorList", false, nil, -1, nil, 0, uint8(0))
+	add(X, "hasOracle", "CHasOracle", false, nil, -1, nil, 0, "eth", common.HexToAddress("0x1234"))
+	add(X, "isOracleOnline", "CIsOracleOnline", false, nil, -1, nil, 0, "eth", common.HexToAddress("0x1234"))
+	// approveShares
+	for _, sp := range []int{aU1, aU2} {
+		for _, sh := range []*big.Int{big.NewInt(0), e18(5)} {
+			add(S, "approveShares", fmt.Sprintf("(CApproveShares 0 %d %s)", sp, zb(sh)), true, nil, -1, nil, 0, v0, A(sp), sh)
+		}
+	}
+	// transferShares: to the victim, a bystander, oneself; one share, everything, one too many
+	own := e18(map[int]int64{aU0: 20, aKC: 30, aKB: 10, aKD: 10, aKCC: 10, aKS: 10}[caller])
+	for _, to := range []int{aU1, aU2, caller} {
+		for _, sh := range []*big.Int{e18(1), own, new(big.Int).Add(own, big.NewInt(1))} {
+			if to == caller && sh.Cmp(own) == 0 {
+				// transferring one's whole delegation to oneself corrupts the caller's own distribution
+				// bookkeeping (stale copy written back, starting info lost): property C11's subject, and
+				// nobody else's assets are involved — left out here
+				continue
+			}
+			add(S, "transferShares", fmt.Sprintf("(CTransferShares 0 %d %s)", to, zb(sh)), true, nil, -1, nil, 0, v0, A(to), sh)
+		}
+	}
+	// transferFromShares: the victim's shares within / at / beyond the allowance, a bystander without shares, the victim on
+	// a validator where no allowance exists, oneself as owner
+	for _, c := range []struct {
+		val, from, to int
+		sh   *big.Int
+	}{
+		{0, aU1, caller, e18(1)}, {0, aU1, aU2, e18(40)}, {0, aU1, caller, new(big.Int).Add(e18(40), big.NewInt(1))},
+		{0, aU1, aU1, e18(2)}, {0, aU2, caller, e18(1)}, {1, aU1, caller, e18(1)}, {0, caller, aU2, e18(1)},
+		{0, aU1, caller, e18(101)},
+	} {
+		add(S, "transferFromShares", fmt.Sprintf("(CTransferFromShares %d %d %d %s)", c.val, c.from, c.to, zb(c.sh)), true, nil, c.from, c.sh, c.val,
+			w.vals[c.val].String(), A(c.from), A(c.to), c.sh)
+	}
+	add(S, "withdraw", "(CWithdraw 0)", true, nil, -1, nil, 0, v0)
+	add(S, "withdraw", "(CWithdraw 1)", true, nil, -1, nil, 0, v1)
+	add(S, "delegateV2", fmt.Sprintf("(CDelegateV2 0 %s)", zb(e18(2))), true, nil, -1, nil, 0, v0, e18(2))
+	add(S, "delegateV2", fmt.Sprintf("(CDelegateV2 1 %s)", zb(e18(2))), true, nil, -1, nil, 0, v1, e18(2))
+	add(S, "delegateV2", fmt.Sprintf("(CDelegateV2 0 %s)", zb(e18(100000))), true, nil, -1, nil, 0, v0, e18(100000))
+	add(S, "undelegateV2", fmt.Sprintf("(CUndelegateV2 0 %s)", zb(e18(1))), true, nil, -1, nil, 0, v0, e18(1))
+	add(S, "undelegateV2", fmt.Sprintf("(CUndelegateV2 0 %s)", zb(e18(1000))), true, nil, -1, nil, 0, v0, e18(1000))
+	add(S, "redelegateV2", fmt.Sprintf("(CRedelegateV2 0 1 %s)", zb(e18(1))), true, nil, -1, nil, 0, v0, v1, e18(1))
+	add(S, "redelegateV2", fmt.Sprintf("(CRedelegateV2 0 0 %s)", zb(e18(1))), true, nil, -1, nil, 0, v0, v0, e18(1))
+	// crosschain: cancel somebody else's / one's own / a missing entry
+	for _, id := range []int64{1, 2, 3, 4, 99} {
+		add(X, "cancelSendToExternal", fmt.Sprintf("(CCancelSendToExternal %d)", id), true, nil, -1, nil, 0, "eth", big.NewInt(id))
+	}
+	for _, id := range []int64{1, 2, 99} {
+		add(X, "increaseBridgeFee", fmt.Sprintf("(CIncreaseBridgeFee %d 500)", id), true, big.NewInt(500), -1, nil, 0, "eth", big.NewInt(id), common.Address{}, big.NewInt(500))
+	}
+	add(X, "increaseBridgeFee", "(CIncreaseBridgeFee 1 500)", true, big.NewInt(499), -1, nil, 0, "eth", big.NewInt(1), common.Address{}, big.NewInt(500))
+	add(X, "crossChain", "(CCrossChain 700 50)", true, big.NewInt(750), -1, nil, 0, common.Address{}, lib.ExternalAccount(w.c.Seed, "eth", 7), big.NewInt(700), big.NewInt(50), fxtypes.MustStrToByte32("eth"), "")
+	add(X, "crossChain", "(CCrossChain 700 50)", true, big.NewInt(751), -1, nil, 0, common.Address{}, lib.ExternalAccount(w.c.Seed, "eth", 7), big.NewInt(700), big.NewInt(50), fxtypes.MustStrToByte32("eth"), "")
+	add(X, "crossChain", "(CCrossChain 700 50)", true, big.NewInt(0), -1, nil, 0, common.Address{}, lib.ExternalAccount(w.c.Seed, "eth", 7), big.NewInt(700), big.NewInt(50), fxtypes.MustStrToByte32("eth"), "")
+	for _, refund := range []int{aU1, caller} {
+		add(X, "bridgeCall", fmt.Sprintf("(CBridgeCall %d)", refund), true, big.NewInt(3000), -1, nil, 0, "eth", A(refund), []common.Address{}, []*big.Int{}, common.HexToAddress("0x1234"), []byte{7}, big.NewInt(0), []byte{})
+	}
+	add(X, "executeClaim", "(CExecuteClaim 5)", true, nil, -1, nil, 0, "eth", big.NewInt(5))
+	// no such method, input too short
+	out = append(out, Call10{Method: "<unknown>", Coq: "CUnknownMethod", Target: S, Data: []byte{0xde, 0xad, 0xbe, 0xef, 0, 0, 0, 1}, Value: big.NewInt(0), From: -1})
+	out = append(out, Call10{Method: "<short>", Coq: "CShortInput", Target: X, Data: []byte{0x16, 0x0d, 0x7c}, Value: big.NewInt(0), From: -1})
+	return out
+}
+
+// ---- switch settings through the real authority-guarded message ----
+
+func (w *World10) setSwitch(ctx sdk.Context, entries []string) {
+	ms := fxgovkeeper.NewMsgServerImpl(w.c.App.GovKeeper)
+	params := w.c.App.GovKeeper.GetSwitchParams(ctx)
+	params.DisablePrecompiles = entries
+	msg := &fxgovtypes.MsgUpdateSwitchParams{Authority: lib.GovAuthority(), Params: params}
+	lib.Must(msg.ValidateBasic())
+	// a sender that is not the authority must be refused
+	bad := &fxgovtypes.MsgUpdateSwitchParams{Authority: sdk.AccAddress(w.addrs[aU0].Bytes()).String(), Params: params}
+	if _, err := ms.UpdateSwitchParams(ctx, bad); err == nil {
+		panic("UpdateSwitchParams accepted a non-authority sender")
+	}
+	_, err := ms.UpdateSwitchParams(ctx, msg)
+	lib.Must(err)
+}
+
+func mixCase(s string, r *lib.Rand) string {
+	b := []byte(s)
+	for i := range b {
+		if b[i] >= 'a' && b[i] <= 'z' && r.Chance(50) {
+			b[i] -= 32
+		}
+	}
+	return string(b)
+}
+
+type switchSetting struct {
+	name    string
+	entries func(c Call10) []string
+}
+
+func switches(r *lib.Rand) []switchSetting {
+	hexAddr := func(a common.Address) string { return strings.ToLower(a.Hex()) }
+	sel := func(c Call10) string {
+		if len(c.Data) >= 4 {
+			return fmt.Sprintf("%x", c.Data[:4])
+		}
+		return "00000000"
+	}
+	other := func(c Call10) common.Address {
+		if c.Target == lib.StakingPrecompile {
+			return lib.CrosschainPrecompile
+		}
+		return lib.StakingPrecompile
+	}
+	return []switchSetting{
+		{"none", func(c Call10) []string { return nil }},
+		{"address", func(c Call10) []string { return []string{"junk", mixCase(hexAddr(c.Target), r)} }},
+		{"address/method", func(c Call10) []string { return []string{mixCase(hexAddr(c.Target)+"/"+sel(c), r)} }},
+		{"other-address-and-other-method", func(c Call10) []string {
+			return []string{hexAddr(other(c)), hexAddr(c.Target) + "/ffffffff", hexAddr(other(c)) + "/" + sel(c)}
+		}},
+		{"malformed", func(c Call10) []string {
+			// what the code does not treat as a match: no 0x prefix, 0x in front of the method id, trailing space
+			return []string{strings.TrimPrefix(hexAddr(c.Target), "0x"), hexAddr(c.Target) + "/0x" + sel(c), hexAddr(c.Target) + " "}
+		}},
+	}
+}
+
+// ---- one run ----
+
+type case10 struct {
+	Shape  string `json:"shape"`
+	Switch string `json:"switch"`
+	Call   Call10 `json:"call"`
+	Detail string `json:"detail"`
+}
+
+func runC10() {
+	seed := lib.Seed()
+	r := lib.NewRand(seed)
+	thorough := lib.Tier() == "thorough" || modeSearch()
+	rep := lib.NewReport("C10")
+	rep.Rule = "every method of both precompile contracts (read-only ones once, write methods with arguments aimed at the victim's shares, allowances, pool entries and bridge calls, at boundary amounts) x caller shape {account, contract forwarding the user's calldata by CALL / STATICCALL / DELEGATECALL / CALLCODE, contract with the call baked in, CALL made inside a STATICCALL} x governance switch {none, address (random letter case), address/method, other address and other method, malformed entries}; non-trivial = a state-changing method reached its dispatch (not stopped by the readonly guard or the switch) with a third party named in its arguments, or was stopped by a guard; distinct by (shape, switch, call)"
+	w := NewWorld10(seed)
+	sws := switches(r)
+	var items []string
+	total := 0
+	for sh := shape(0); sh < nShapes; sh++ {
+		caller, kind, static := sh.facts()
+		for _, call := range w.calls(caller) {
+			for _, sw := range sws {
+				total++
+				if !thorough && sw.name != "none" && !r.Chance(30) {
+					continue // quick: every (shape, call) without switch, a third of the switch combinations
+				}
+				w.one(rep, r, sh, caller, kind, static, call, sw, &items)
+			}
+		}
+	}
+	rep.Count(fmt.Sprintf("combinations_total=%d", total))
+	writeCases10(items)
+	rep.Write()
+}
+
+// states are interned: most runs start from (and, when the call fails, end in) one of a few states
+var stateNames = map[string]string{}
+var stateDefs []string
+
+func intern(coq string) string {
+	if n, ok := stateNames[coq]; ok {
+		return n
+	}
+	n := fmt.Sprintf("st_%d", len(stateNames))
+	stateNames[coq] = n
+	stateDefs = append(stateDefs, fmt.Sprintf("Definition %s : astate := %s.", n, coq))
+	return n
+}
+
+// same layout as lib.WriteCases, with the interned states in front
+func writeCases10(items []string) {
+	var sb strings.Builder
+	sb.WriteString("(* generated by the harness: observed behaviour of the implementation; do not edit *)\n")
+	sb.WriteString("From Coq Require Import ZArith List.\nImport ListNotations.\nOpen Scope Z_scope.\n")
+	for _, im := range []string{"gen.Gen_Precompiles", "model.M_Precompile", "model.M_PrecompileCorr"} {
+		sb.WriteString("From FxV Require Import " + im + ".\n")
+	}
+	for _, d := range stateDefs {
+		sb.WriteString(d + "\n")
+	}
+	sb.WriteString("Definition cases : list (c10_case) :=\n [")
+	for i, it := range items {
+		if i > 0 {
+			sb.WriteString(";\n  ")
+		}
+		sb.WriteString(it)
+	}
+	sb.WriteString("].\n")
+	sb.WriteString("Fixpoint idx_filter {A} (f : A -> bool) (i : Z) (l : list A) : list Z :=\n  match l with [] => [] | x :: r => if f x then i :: idx_filter f (i + 1) r else idx_filter f (i + 1) r end.\n")
+	sb.WriteString("Definition mismatches : list Z := Eval vm_compute in idx_filter (c10_mismatch) 0 cases.\n")
+	sb.WriteString("Definition ncases : Z := Eval vm_compute in Z.of_nat (List.length cases).\n")
+	sb.WriteString("Print mismatches.\nPrint ncases.\n")
+	lib.Must(os.WriteFile(filepath.Join(lib.OutDir(), "Cases_C10.v"), []byte(sb.String()), 0o644))
+}
+
+func (w *World10) one(rep *lib.Report, r *lib.Rand, sh shape, caller int, kind string, static bool, call Call10, sw switchSetting, items *[]string) {
+	c := w.c
+	ctx, _ := w.base.CacheContext()
+	entries := sw.entries(call)
+	if len(entries) > 0 {
+		w.setSwitch(ctx, entries)
+	}
+	// code of the contracts for this case
+	ck := map[string]lib.CallKind{"CALL": lib.CALL, "STATICCALL": lib.STATICCALL, "DELEGATECALL": lib.DELEGATECALL, "CALLCODE": lib.CALLCODE}[kind]
+	to := call.Target
+	value := call.Value
+	switch sh {
+	case shEOA:
+	case shFwdCall, shFwdStatic, shFwdDelegate, shFwdCallCode:
+		c.InstallCode(ctx, w.addrs[caller], forwarder(ck, call.Target))
+		to = w.addrs[caller]
+	case shStaticOuter:
+		c.InstallCode(ctx, w.addrs[aKC], forwarder(lib.CALL, call.Target))
+		c.InstallCode(ctx, w.addrs[aSO], forwarder(lib.STATICCALL, w.addrs[aKC]))
+		to = w.addrs[aSO]
+		value = big.NewInt(0) // STATICCALL carries no value; a value-bearing CALL inside it is refused by the interpreter
+	case shBaked:
+		a := (&lib.Asm{}).Call(lib.CALL, call.Target, 0, call.Value, call.Data).RequireSuccess().Stop()
+		c.InstallCode(ctx, w.addrs[aKB], a.B)
+		to = w.addrs[aKB]
+	}
+	if ck == lib.STATICCALL || ck == lib.DELEGATECALL {
+		value = big.NewInt(0) // these opcodes carry no value; the forwarder itself is not payable for them here
+	}
+	pre := w.observe(ctx)
+	dumpPre := c.DumpAll(ctx)
+	data := call.Data
+	if sh == shBaked {
+		data = nil
+	}
+	res, tr, _ := evmCall(c, ctx, w.addrs[aU0], to, value, 3_000_000, data)
+	post := w.observe(ctx)
+	ok := res.Err == nil && !res.Failed
+	key := fmt.Sprintf("%s|%s|%s", shapeNames[sh], sw.name, call.Coq+call.Value.String())
+	rp := case10{Shape: shapeNames[sh], Switch: sw.name + " " + strings.Join(entries, ","), Call: call}
+	fail := func(what, sig, detail string) {
+		rp.Detail = detail
+		rep.Fail(lib.Failure{Kind: "monitor", What: what, Sig: sig, Replay: rp})
+	}
+	// did the precompile frame itself succeed? (the forwarders revert when it fails, so: tx status; cross-check with the trace)
+	var pf *TFrame
+	var find func(f *TFrame)
+	find = func(f *TFrame) {
+		if f == nil {
+			return
+		}
+		if isPrecompile(f.To) && pf == nil {
+			pf = f
+		}
+		for _, o := range f.Ops {
+			if o.Kind == "frame" {
+				find(o.Frame)
+			}
+		}
+	}
+	find(tr.Root)
+	if pf != nil && (pf.Err == "") != ok {
+		rep.Fail(lib.Failure{Kind: "harness", What: "transaction status differs from the precompile frame's status", Sig: "C10:harness:status", Replay: rp})
+	}
+	if pf != nil && pf.From != w.addrs[caller] {
+		fail("the precompile was entered with a caller other than the executing context", "C10:caller-identity",
+			fmt.Sprintf("expected %s got %s", w.addrs[caller].Hex(), pf.From.Hex()))
+	}
+	disabled := sw.name == "address" || (sw.name == "address/method" && len(call.Data) >= 4)
+	guardStop := call.Write && (kind != "CALL")
+	nontrivial := (call.Write && !disabled && !guardStop && (call.From >= 0 || strings.Contains(call.Method, "cancel") || strings.Contains(call.Method, "increase") || strings.Contains(call.Method, "transfer"))) || (call.Write && (disabled || guardStop || static))
+	rep.Case(key, nontrivial)
+	rep.Count("shape=" + shapeNames[sh])
+	rep.Count(fmt.Sprintf("ok=%v", ok))
+	rep.Count("switch=" + sw.name)
+
+	// ---- monitors ----
+	if !ok {
+		if d := lib.DiffDumps(dumpPre, c.DumpAll(ctx)); len(d) > 0 {
+			sig := "C10:failed-call-changed-store"
+			if call.Method == "delegationRewards" {
+				sig = "C10:delegationRewards-unjournaled:failed-call-changed-store"
+			}
+			fail("a failed precompile call changed the store", sig, strings.Join(d, "\n"))
+		}
+	}
+	if disabled && ok {
+		fail("a precompile disabled by governance executed", "C10:switch", strings.Join(entries, ","))
+	}
+	if guardStop && ok {
+		fail("a state-changing method succeeded through "+kind, "C10:readonly-guard", call.Method)
+	}
+	if call.Write && static && ok {
+		fail("a state-changing precompile method succeeded inside a STATICCALL context (reached by a nested CALL)", "C10:static-context-write:"+call.Method, call.Method)
+	}
+	if !call.Write && call.Method == "delegationRewards" {
+		// the read-only method must not change anything at all (finding C09-1)
+		if d := lib.DiffDumps(dumpPre, c.DumpAll(ctx)); len(d) > 0 && ok {
+			fail("a read-only precompile method changed the store", "C10:delegationRewards-unjournaled:readonly-wrote", strings.Join(d, "\n"))
+		}
+	} else if !call.Write && ok {
+		if d := lib.DiffDumps(dumpPre, c.DumpAll(ctx)); len(d) > 0 {
+			fail("a read-only precompile method changed the store", "C10:readonly-wrote:"+call.Method, strings.Join(d, "\n"))
+		}
+	}
+	// third parties: everybody but the direct caller; the sender of the transaction paid `value` to the contract it called
+	for a := 0; a < nAccts; a++ {
+		if a == caller {
+			continue
+		}
+		exp := new(big.Int).Set(pre.Bal[a])
+		if a == aU0 && ok && sh != shEOA {
+			exp.Sub(exp, value)
+		}
+		if post.Bal[a].Cmp(exp) < 0 {
+			fail("the balance of an account that is not the direct caller decreased", "C10:third-party:balance", fmt.Sprintf("account %d: %s -> %s", a, pre.Bal[a], post.Bal[a]))
+		}
+		for v := 0; v < 2; v++ {
+			if post.Unb[a][v].Cmp(pre.Unb[a][v]) < 0 {
+				fail("an unbonding entry of an account that is not the direct caller shrank", "C10:third-party:unbonding", fmt.Sprintf("account %d", a))
+			}
+			// reward entitlement: may only turn into balance of the same account (withdraw address = self here)
+			if post.Rwd[a][v].Cmp(pre.Rwd[a][v]) < 0 {
+				gain := new(big.Int).Sub(post.Bal[a], exp)
+				lost := new(big.Int).Sub(pre.Rwd[a][v], post.Rwd[a][v])
+				if gain.Cmp(new(big.Int).Sub(lost, big.NewInt(2))) < 0 {
+					fail("reward entitlement of an account that is not the direct caller was reduced without being paid out to it", "C10:third-party:rewards", fmt.Sprintf("account %d lost %s gained %s", a, lost, gain))
+				}
+			}
+			if post.Dlg[a][v].Cmp(pre.Dlg[a][v]) < 0 {
+				lost := new(big.Int).Sub(pre.Dlg[a][v], post.Dlg[a][v])
+				okAllow := call.Method == "transferFromShares" && call.From == a && call.Val == v && ok
+				if okAllow {
+					al := pre.Alw[[3]int{v, a, caller}]
+					if al == nil {
+						al = big.NewInt(0)
+					}
+					al2 := post.Alw[[3]int{v, a, caller}]
+					if al2 == nil {
+						al2 = big.NewInt(0)
+					}
+					if lost.Cmp(call.Shares) != 0 || lost.Cmp(al) > 0 || new(big.Int).Sub(al, al2).Cmp(lost) != 0 {
+						fail("shares moved out of an owner's delegation do not match the allowance bookkeeping", "C10:allowance-accounting",
+							fmt.Sprintf("owner %d lost %s, asked %s, allowance %s -> %s", a, lost, call.Shares, al, al2))
+					}
+				} else {
+					fail("the delegation of an account that is not the direct caller was reduced", "C10:third-party:delegation", fmt.Sprintf("account %d validator %d: %s -> %s", a, v, pre.Dlg[a][v], post.Dlg[a][v]))
+				}
+			}
+		}
+		for k, al := range pre.Alw {
+			if k[1] != a {
+				continue
+			}
+			al2 := post.Alw[k]
+			if al2 == nil {
+				al2 = big.NewInt(0)
+			}
+			if al2.Cmp(al) != 0 && !(k[2] == caller && call.Method == "transferFromShares" && call.From == a && ok) {
+				fail("an allowance granted by an account that is not the direct caller changed", "C10:third-party:allowance", fmt.Sprintf("%v: %s -> %s", k, al, al2))
+			}
+		}
+		for id, e := range pre.Pool {
+			if e[0] != fmt.Sprint(a) {
+				continue
+			}
+			e2, has := post.Pool[id]
+			f1, _ := new(big.Int).SetString(e[2], 10)
+			if !has {
+				fail("a pool entry of an account that is not the direct caller was cancelled", "C10:third-party:pool", fmt.Sprintf("tx %d of account %d", id, a))
+				continue
+			}
+			f2, _ := new(big.Int).SetString(e2[2], 10)
+			if e2[0] != e[0] || e2[1] != e[1] || f2.Cmp(f1) < 0 {
+				fail("a pool entry of an account that is not the direct caller was altered to its disadvantage", "C10:third-party:pool", fmt.Sprintf("tx %d: %v -> %v", id, e, e2))
+			}
+		}
+		for n, e := range pre.BCalls {
+			if e[0] == fmt.Sprint(a) && post.BCalls[n] != e {
+				fail("a bridge call of an account that is not the direct caller was altered", "C10:third-party:bridge-call", fmt.Sprintf("nonce %d", n))
+			}
+		}
+	}
+	// ---- correspondence ----
+	// the model starts where the precompile is entered: the sender's value already sits with the forwarding contract
+	if sh != shEOA && value.Sign() > 0 {
+		pre.Bal[aU0] = new(big.Int).Sub(pre.Bal[aU0], value)
+		pre.Bal[caller] = new(big.Int).Add(pre.Bal[caller], value)
+		if !ok { // the whole transaction was reverted: compare against the adjusted pre-state
+			post.Bal[aU0] = new(big.Int).Sub(post.Bal[aU0], value)
+			post.Bal[caller] = new(big.Int).Add(post.Bal[caller], value)
+		}
+	}
+	*items = append(*items, fmt.Sprintf("mk_c10_case %s %s %d %s %s %s %s %s", kind, lib.Bool(static), caller, zb(value), call.Coq, intern(pre.coq()), lib.Bool(ok), intern(post.coq())))
+	rep.Sample(rp)
+}
+
+var _ = distrtypes.ModuleName
